@@ -223,7 +223,10 @@ class H5Group:
             raise ValueError("Error deleting {} ".format(name))
         # Delete if empty and non-root container
         groupdepth = len(self.group.name.split("/")) - 1
-        if delete_if_empty and not len(self.group) and groupdepth > 1:
+        # only container groups are removed when empty, never an entity
+        # (e.g. a Source without children whose metadata link is removed)
+        if (delete_if_empty and not len(self.group) and groupdepth > 1
+                and "entity_id" not in self.group.attrs):
             del self.parent.group[self.name]
             # del self.group
             self.group = None
